@@ -135,10 +135,13 @@ fn thread_choices(quick: bool, k: usize) -> Vec<i64> {
 }
 
 fn run2<F: Function + RenderHints + MathFunction + Clone>(cx: &mut Cx, backend: &str, b: &Built, quick: bool, k: usize, rng: &mut Rng) {
+    run2_with::<F>(cx, backend, b, quick, k, rng, None)
+}
+fn run2_with<F: Function + RenderHints + MathFunction + Clone>(cx: &mut Cx, backend: &str, b: &Built, quick: bool, k: usize, rng: &mut Rng, deep: Option<&[usize]>) {
     let shape = Shape::<F>::new(&b.ctx, b.root).unwrap();
     let vars = ShapeVars::<f32>::new();
     let (w, h) = [(64u32, 64u32), (96, 40), (50, 70)][k % 3];
-    let tiles: &[usize] = [&[16usize, 4][..], &[8, 2], &[32, 8]][k % 3];
+    let tiles: &[usize] = deep.unwrap_or([&[16usize, 4][..], &[8, 2], &[32, 8]][k % 3]);
     let perfect = k % 2 == 0;
     let ntasks = (w as usize).div_ceil(tiles[0]) * (h as usize).div_ceil(tiles[0]);
     let render = |threads: i64, token: CancelToken| -> Option<[i64; 2]> {
@@ -163,11 +166,14 @@ fn run2<F: Function + RenderHints + MathFunction + Clone>(cx: &mut Cx, backend: 
 }
 
 fn run3<F: Function + RenderHints + MathFunction + Clone>(cx: &mut Cx, backend: &str, b: &Built, quick: bool, k: usize, rng: &mut Rng) {
+    run3_with::<F>(cx, backend, b, quick, k, rng, None)
+}
+fn run3_with<F: Function + RenderHints + MathFunction + Clone>(cx: &mut Cx, backend: &str, b: &Built, quick: bool, k: usize, rng: &mut Rng, deep: Option<&[usize]>) {
     let shape = Shape::<F>::new(&b.ctx, b.root).unwrap();
     let vars = ShapeVars::<f32>::new();
     // the last one is a single root tile in XY and several root tiles deep: all polls happen before any work
     let size = [(32u32, 32u32, 32u32), (24, 40, 20), (40, 16, 33), (16, 16, 64)][k % 4];
-    let tiles: &[usize] = [&[8usize, 4][..], &[8], &[16, 4], &[16, 4]][k % 4];
+    let tiles: &[usize] = deep.unwrap_or([&[8usize, 4][..], &[8], &[16, 4], &[16, 4]][k % 4]);
     let ntasks = (size.0 as usize).div_ceil(tiles[0]) * (size.1 as usize).div_ceil(tiles[0]);
     let render = |threads: i64, token: CancelToken| -> Option<[i64; 2]> {
         let cfg = voxel::RenderConfig { image_size: VoxelSize::new(size.0, size.1, size.2), world_to_model: Matrix4::identity() };
@@ -192,12 +198,16 @@ fn run3<F: Function + RenderHints + MathFunction + Clone>(cx: &mut Cx, backend: 
 }
 
 fn run_mesh<F: Function + RenderHints + MathFunction + Clone>(cx: &mut Cx, backend: &str, b: &Built, quick: bool, k: usize, rng: &mut Rng) {
+    run_mesh_with::<F>(cx, backend, b, quick, k, rng, None)
+}
+/// `directed`: (depth, pools to try) for the flat-faced solids on cell boundaries; every pool size is tried, uncancelled
+fn run_mesh_with<F: Function + RenderHints + MathFunction + Clone>(cx: &mut Cx, backend: &str, b: &Built, quick: bool, k: usize, rng: &mut Rng, directed: Option<(u8, &[i64])>) {
     let shape = Shape::<F>::new(&b.ctx, b.root).unwrap();
     let vars = ShapeVars::<f32>::new();
     // depth 0 and 1: fewer cells than a pool wants tasks (at depth 0 the root itself is the only task)
-    let depth = [2u8, 3, 0, 4, 5, 1][k % 6];
+    let depth = directed.map(|d| d.0).unwrap_or([2u8, 3, 0, 4, 5, 1][k % 6]);
     let mut w2m = Matrix4::identity();
-    if k % 3 == 1 {
+    if k % 3 == 1 && directed.is_none() {
         w2m[(0, 0)] = 1.25;
         w2m[(1, 3)] = 0.1;
     }
@@ -208,9 +218,10 @@ fn run_mesh<F: Function + RenderHints + MathFunction + Clone>(cx: &mut Cx, backe
         Octree::build(&bound, &settings).map(|o| digest_mesh(&o.walk_dual()))
     };
     let reference = mesh(0, CancelToken::new()).unwrap();
-    for t in thread_choices(quick, k) {
+    for t in directed.map(|d| d.1.to_vec()).unwrap_or_else(|| thread_choices(quick, k)) {
         let mut ks: Vec<i64> = vec![-1, 0, 1, 3, 9, 40, 200, 100000];
         if quick { ks = vec![-1, 0, 1 + rng.below(60) as i64, 100000]; }
+        if directed.is_some() { ks = vec![-1]; }
         for ca in ks {
             let token = CancelToken::new();
             let (r, obs) = with_hooks(&token, ca, rng.next(), || vharness::catch(std::panic::AssertUnwindSafe(|| mesh(t, token.clone()))));
@@ -284,6 +295,56 @@ fn main() {
         if k % 2 == 1 { run3::<VmFunction>(&mut cx, "vm", &b3, quick, k, &mut rng); } else { run3::<JitFunction>(&mut cx, "jit", &b3, quick, k, &mut rng); }
         let bm = shapes::random_csg3(&mut rng, 1 + k % 3, true);
         if k % 2 == 0 { run_mesh::<VmFunction>(&mut cx, "vm", &bm, quick, k, &mut rng); } else { run_mesh::<JitFunction>(&mut cx, "jit", &bm, quick, k, &mut rng); }
+    }
+    // directed families.  (a) flat-faced solids whose faces lie on (or one float step off) cell boundaries of the first
+    // split levels, and flat parts larger than a task cell, at depths 3 and 4 under pools of every size: the task split
+    // depends on the pool (min(8^depth, 10 x threads) tasks), collapsed leaves cross the task boundary
+    {
+        use vharness::shapes::{box3, sphere};
+        let solids: Vec<(&str, Box<dyn Fn(&mut fidget_core::Context) -> fidget_core::context::Node>)> = vec![
+            ("box +-0.5", Box::new(|c| box3(c, [-0.5, -0.5, -0.5], [0.5, 0.5, 0.5]))),
+            ("box -0.75..0.25", Box::new(|c| box3(c, [-0.75, -0.25, -0.5], [0.25, 0.75, 0.5]))),
+            ("box +-0.6", Box::new(|c| box3(c, [-0.6, -0.6, -0.6], [0.6, 0.6, 0.6]))),
+            ("slab", Box::new(|c| box3(c, [-0.8, -0.8, -0.1], [0.8, 0.8, 0.25]))),
+            ("box and sphere", Box::new(|c| { let a = box3(c, [-0.5, -0.5, -0.5], [0.5, 0.5, 0.0]); let b = sphere(c, [0.0, 0.0, 0.2], 0.45); c.min(a, b).unwrap() })),
+            ("box one step above 0.5", Box::new(|c| box3(c, [-0.50000006, -0.50000006, -0.50000006], [0.50000006, 0.50000006, 0.50000006]))),
+        ];
+        let pools: &[i64] = if quick { &[3, 8, 16] } else { &[-1, 1, 2, 3, 4, 5, 8, 12, 16] };
+        for (k, (name, build)) in solids.iter().enumerate() {
+            let mut ctx = fidget_core::Context::new();
+            let root = build(&mut ctx);
+            let b = Built { ctx, root, desc: format!("directed {name}") };
+            for depth in [3u8, 4] {
+                if quick && (k + depth as usize) % 2 == 1 && k > 2 { continue; }
+                if k % 2 == 0 { run_mesh_with::<VmFunction>(&mut cx, "vm", &b, quick, k, &mut rng, Some((depth, pools))); }
+                else { run_mesh_with::<JitFunction>(&mut cx, "jit", &b, quick, k, &mut rng, Some((depth, pools))); }
+            }
+        }
+    }
+    // (b) renders with three to five tile levels of shapes made of many like parts (unions of rectangles, rows of boxes):
+    // every worker's render handle sees simplification after simplification with recurring traces, and which tiles a
+    // worker sees depends on the pool
+    for k in 0..(if quick { 6 } else { 40 }) {
+        let mut ctx = fidget_core::Context::new();
+        let mut acc: Option<fidget_core::context::Node> = None;
+        for _ in 0..(3 + rng.below(8)) {
+            let (x0, y0) = (rng.range(-1.0, 0.8), rng.range(-1.0, 0.8));
+            let r = vharness::shapes::rect2(&mut ctx, x0, x0 + rng.range(0.05, 0.7), y0, y0 + rng.range(0.05, 0.7));
+            acc = Some(match acc { None => r, Some(p) => ctx.min(p, r).unwrap() });
+        }
+        let b2 = Built { ctx, root: acc.unwrap(), desc: "rectangles".into() };
+        let deep2: &[usize] = [&[16usize, 8, 4, 2, 1][..], &[32, 8, 2], &[16, 4, 2]][k % 3];
+        if k % 2 == 0 { run2_with::<VmFunction>(&mut cx, "vm", &b2, quick, k, &mut rng, Some(deep2)); } else { run2_with::<JitFunction>(&mut cx, "jit", &b2, quick, k, &mut rng, Some(deep2)); }
+        let mut ctx = fidget_core::Context::new();
+        let mut acc: Option<fidget_core::context::Node> = None;
+        for _ in 0..(2 + rng.below(6)) {
+            let lo = [rng.range(-1.0, 0.7), rng.range(-1.0, 0.7), rng.range(-1.0, 0.5)];
+            let r = vharness::shapes::box3(&mut ctx, lo, [lo[0] + rng.range(0.1, 0.8), lo[1] + rng.range(0.1, 0.8), lo[2] + rng.range(0.1, 0.9)]);
+            acc = Some(match acc { None => r, Some(p) => ctx.min(p, r).unwrap() });
+        }
+        let b3 = Built { ctx, root: acc.unwrap(), desc: "boxes".into() };
+        let deep3: &[usize] = [&[16usize, 8, 4][..], &[8, 4, 2], &[16, 4, 2]][k % 3];
+        if k % 2 == 1 { run3_with::<VmFunction>(&mut cx, "vm", &b3, quick, k, &mut rng, Some(deep3)); } else { run3_with::<JitFunction>(&mut cx, "jit", &b3, quick, k, &mut rng, Some(deep3)); }
     }
     for k in 0..(if quick { 4 } else { 30 }) {
         shared_tape(&mut cx, &mut rng, [16, 8, 3, 12][k % 4]);
